@@ -368,7 +368,7 @@ pub fn run(tier: &str, seed: u64) -> i32 {
         max_insts: 2,
         include_cf3: false,
         body_forms: if thorough { ALL_BODY_FORMS.to_vec() } else { vec![BodyForm::Named] },
-        param_forms: if thorough { ALL_PARAM_FORMS.to_vec() } else { vec![ParamForm::One, ParamForm::Two, ParamForm::ConfigSkipped] },
+        param_forms: if thorough { ALL_PARAM_FORMS.to_vec() } else { vec![ParamForm::One, ParamForm::Two, ParamForm::ConfigSkipped, ParamForm::BitsSO] },
     };
     let (all, _, _) = enumerate(&d, if thorough { 3 } else { 2 }, 3_000_000);
     for (_, s) in &all {
